@@ -414,3 +414,69 @@ def core_spec(draw, core_rings=(1, 2), n_types=(1, 3), rings=(2, 4), ducts=(1, 2
     spec["power"] = {"total_power": r6(Ptot) if not zero_power else 0.0, "files": [pfile]}
     spec["_meta"] = {"types": metas, "pos": posmeta, "core_rings": cr}
     return spec
+
+
+# ----------------------------------------------------------------------------------------------
+# pin models
+@st.composite
+def fuel_model(draw):
+    n = draw(st.integers(1, 5))
+    annular = draw(st.integers(0, 3)) == 0
+    r0 = draw(fl(0.1, 0.4)) if annular else 0.0
+    cuts = sorted(draw(st.lists(fl(r0 + 0.05, 0.95), min_size=n - 1, max_size=n - 1, unique=True)))
+    rf = [round(r0, 4)]
+    for c in cuts:
+        c = round(c, 4)
+        if c - rf[-1] > 0.03:
+            rf.append(c)
+    n = len(rf)
+    fm = {"clad_material": draw(st.sampled_from(["ht9", "ss316", "d9"])),
+          "r_frac": rf,
+          "pu_frac": [r6(draw(fl(0.0, 0.3))) for _ in range(n)],
+          "zr_frac": [r6(draw(fl(0.0, 0.2))) for _ in range(n)],
+          "porosity": [r6(draw(fl(0.0, 0.3))) for _ in range(n)]}
+    if draw(st.booleans()):
+        fm["gap_thickness_frac"] = r6(draw(fl(0.01, 0.15)))      # fraction of the clad inner radius
+        fm["gap_material"] = "sodium"
+    if draw(st.booleans()):
+        fm["htc_params_clad"] = [r6(draw(fl(0.01, 0.03))), 0.8, r6(draw(fl(0.4, 0.9))), r6(draw(fl(4.0, 8.0)))]
+    return fm
+
+
+@st.composite
+def pin_model(draw):
+    n = draw(st.integers(1, 4))
+    annular = draw(st.integers(0, 3)) == 0
+    r0 = draw(fl(0.1, 0.4)) if annular else 0.0
+    cuts = sorted(draw(st.lists(fl(r0 + 0.05, 0.95), min_size=n - 1, max_size=n - 1, unique=True)))
+    rf = [round(r0, 4)]
+    for c in cuts:
+        c = round(c, 4)
+        if c - rf[-1] > 0.03:
+            rf.append(c)
+    n = len(rf)
+    mats = {}
+    names = []
+    for i in range(n):
+        nm = "pinmat%d" % i
+        k0 = r6(draw(logfl(2.0, 40.0)))
+        k1 = r6(draw(fl(0.0, 0.01))) if draw(st.booleans()) else None
+        mats[nm] = {"thermal_conductivity": [k0] + ([k1] if k1 else []), "heat_capacity": [300.0], "density": [10000.0]}
+        names.append(nm)
+    pm = {"clad_material": draw(st.sampled_from(["ht9", "ss316"])), "r_frac": rf, "pin_material": names}
+    if draw(st.booleans()):
+        pm["gap_thickness_frac"] = r6(draw(fl(0.01, 0.15)))
+        pm["gap_material"] = "sodium"
+    return pm, mats
+
+
+def attach_pin_model(spec, name, model, mats=None, fuel=True):
+    """Put a Fuel-/PinModel section on assembly `name` (gap thickness resolved from the pin dimensions)."""
+    a = spec["assemblies"][name]
+    model = dict(model)
+    if "gap_thickness_frac" in model:
+        rin = 0.5 * a["pin_diameter"] - a["clad_thickness"]
+        model["gap_thickness"] = round(model.pop("gap_thickness_frac") * rin, 9)
+    a["FuelModel" if fuel else "PinModel"] = model
+    if mats:
+        spec["materials"].update(mats)
